@@ -785,7 +785,7 @@ func yCbCrToGray() {
 	VADDPS(green, gray, gray)
 
 	// Move result to memory
-	VMOVAPS(gray, Mem{Base: pixels, Index: idxyStride, Scale: 4})
+	VMOVUPS(gray, Mem{Base: pixels, Index: idxyStride, Scale: 4})
 	Comment("End innerloop instructions")
 
 	ADDQ(Imm(8), x)
